@@ -13,7 +13,9 @@ var (
 	users  = []string{"u0", "u1"}
 	durs   = []time.Duration{0, time.Hour, 24 * time.Hour, 7 * 24 * time.Hour, 30 * time.Minute, -time.Hour}
 	t2000  = time.Date(2000, 1, 1, 0, 0, 0, 0, time.UTC).UnixNano()
-	epochs = []int64{0, int64(time.Hour), int64(24 * time.Hour), -int64(time.Hour), int64(36 * time.Hour), int64(10 * 24 * time.Hour)}
+	// offsets from 2000-01-01; the last two land on the Unix epoch itself and
+	// an hour before it (group boundaries at time 0, pre-1970 timestamps)
+	epochs = []int64{0, int64(time.Hour), int64(24 * time.Hour), -int64(time.Hour), int64(36 * time.Hour), int64(10 * 24 * time.Hour), -t2000, -t2000 - int64(time.Hour)}
 )
 
 // GenCmd draws one metadata command with arbitrary (valid, repeated,
